@@ -18,7 +18,11 @@ impl<'a> Subscription<'a> {
     }
   }
   pub fn unsubscribe(&self) {
-    self.fn_unsubscribe.call_and_clear_if_available(());
+    // Every caller runs the (idempotent) action and only then lets go of it: a second
+    // caller must not return while the first one, on another thread, has not even cut the
+    // subscriber's callbacks off yet.
+    self.fn_unsubscribe.call_if_available(());
+    self.fn_unsubscribe.clear();
   }
   pub fn is_subscribed(&self) -> bool {
     if let Some(x) = self.fn_is_subscribed.call_if_available(()) {
